@@ -53,12 +53,12 @@ type c17Req struct {
 }
 
 type c17Hit struct {
-	ID        int    `json:"id"`
-	Bits      string `json:"bits"`       // IEEE bits of the score, hex
+	ID        int     `json:"id"`
+	Bits      string  `json:"bits"` // IEEE bits of the score, hex
 	Score     float64 `json:"score"`
-	F1        string `json:"f1"`         // fmt.Sprintf("%.1f", score)
-	JSONScore string `json:"json_score"` // json.Marshal(score)
-	Pass      bool   `json:"pass"`       // passes the platform / pipeline gate (passesFilters) under the CLI's options
+	F1        string  `json:"f1"`         // fmt.Sprintf("%.1f", score)
+	JSONScore string  `json:"json_score"` // json.Marshal(score)
+	Pass      bool    `json:"pass"`       // passes the platform / pipeline gate (passesFilters) under the CLI's options
 }
 
 type c17Doc struct {
